@@ -32,7 +32,7 @@ def build_via_setters(cfg, p, seed):
     r = random.Random(seed)
     q = dict(p)
     q["data"] = r.choice(("", "aa", "bb" * 40))
-    q["seg_meta"] = r.choice((None, [1, ""], [2, "0102"], [3, "11" * 63]))
+    q["seg_meta"] = r.choice((None, [1, ""], [2, "0102"], [3, "11" * 63], [0, "22" * 5]))
     # the ids / sequence number start with other values and are written into the header's field objects afterwards (integer, octets
     # of the field width, or a longer receive buffer from which the field takes its own width)
     c0 = dict(cfg)
@@ -76,10 +76,12 @@ def k_fd(ctx, cfg, p, model_fed=False, via="ctor", seed=0):
         ok, pdu = attempt(C.build, "file_data", cfg, p)
     if not ctx.check("fd.construct", ok, "raised", exc_sig(pdu) if not ok else "", case, error=repr(pdu)):
         return
+    okb, before = attempt(lambda: (pdu.packet_len, pdu.pdu_data_field_len))           # read before pack(): setters keep them right on their own
     ok, raw = attempt(pdu.pack)
     if not ctx.check("fd.pack", ok, "raised", exc_sig(raw) if not ok else "", case, error=repr(raw)):
         return
     raw = bytes(raw)
+    ctx.check("fd.len", okb and before == (len(want), len(want) - R.header_len(cfg["idw"], cfg["seqw"])), "length_reported_before_packing", feat, case, observed=repr(before), expected=len(want))
     if not ctx.check("fd.pack", raw == want, "octets", f"{feat}/{_where(cfg, raw, want)}", case, expected=want[:80], observed=raw[:80]):
         return
     hl = R.header_len(cfg["idw"], cfg["seqw"])
